@@ -216,6 +216,213 @@ CLAIMED = {
              'specification. Two defects found this way were repaired (292489c, 8a5b41d).',
         design_ref='7/C08', note=COMMON_NOTE, technique='Lean 4 proof (model = exact rational specification) + differential correspondence'),
     'C09': dict(
+        text='FULL. Theorems SfxProps.C09.holds (= C09_statement, for every valid layout, value, formatting trait and format spec with any sign/width/fill/alignment/+/#/0 and any precision < 2^16: '
+             'no panic, no debug-only check; the output is exactly assemble(sign, prefix, padding) around a digit string digitsOf(kind, precision, |x|) that does not depend on sign or flags; digits '
+             'canonical and in range; Binary/Octal/Hex digits denote the value exactly, Display/Debug digits are the half-even rounding at the digits shown and strictly within half an ulp of the type; '
+             'with precision p the digits are the half-even rounding at p digits in every radix), flags_only_pad, debug_eq_display, and round_trip (the default output parses back through the modelled '
+             'from_str, using C08, to exactly the same bits without overflow). Tie: the function-by-function model of display.rs agrees with the code on every request (all 507 layouts, 2112 format '
+             'specs incl. multi-byte fill, both profiles); every printed string is also judged by the exact-rational verdict and parsed back by the implementation. Defect found this way repaired (fcf22ad).',
+        design_ref='7/C09', note=COMMON_NOTE + ' Not proved (not asked): minimality of the library-chosen digit count.', technique='Lean 4 proof (model = exact rational specification) + differential correspondence'),
+    'C10': dict(
+        text='Theorems (SfxProps.C10): encode has width/8 bytes, equals to_le_bytes and ignores the fractional-bit count; decode(encode a ++ rest) = (a, |rest|); '
+             'short input fails; le/be/ne byte views and from_*_bytes are mutually inverse bijections; the struct description regenerated from lib.rs '
+             '(fields, repr, derives, no #[codec] attribute, no manual impl) is checked by a theorem over Generated.lean. Correspondence on the public '
+             'Encode/Decode/MaxEncodedLen API and byte views (8-bit exhaustive). serde form not exercised.',
+        design_ref='7/C10', note=COMMON_NOTE + ' parity-scale-codec derive semantics (fields in order, PhantomData encodes to nothing) are assumed and cross-checked by the correspondence.',
+        technique='Lean 4 proof over executable model + translator-checked struct description + differential correspondence'),
+    'C06': dict(
+        text='Theorem SfxProps.C06.holds (full strength, all 507 layouts incl. 0 and 1 integer bits): each overflowing_{ceil,floor,round,round_ties_to_even} equals '
+             '(exact rounding mod 2^n, exact flag); checked/saturating/wrapping/plain forms follow; round_to_zero = truncation without any check firing; int+frac split. '
+             'Mask constants INT_MASK/FRAC_MASK/INT_LSB/FRAC_MSB proved from their bit-operation definitions. Correspondence: all 23 public methods, 8-bit exhaustive on '
+             'all 18 layouts, both profiles.',
+        design_ref='7/C06', note=COMMON_NOTE, technique='Lean 4 proof over executable model + differential correspondence'),
+    'C07': dict(
+        text='Theorem SfxProps.C07.holds (full strength, all layouts, all operands): % = truncated remainder, rem_euclid = Euclidean remainder, '
+             'div_euclid forms = the four documented functions of the exact Euclidean quotient, likewise for primitive-integer divisors (incl. the divisor '
+             'whose fixed-point image does not fit and the unsigned-arithmetic tail of rem_euclid_int); zero divisor: None / documented panic; no check fires. '
+             'The div_euclid family was repaired in /repo (fix 44b358d) after the check reproduced the defect. Correspondence: 19 public methods, both profiles.',
+        design_ref='7/C07', note=COMMON_NOTE, technique='Lean 4 proof over executable model + differential correspondence'),
+    'C18': dict(
+        text='Theorem SfxProps.C18.holds: for every layout, every start value and every well-formed program of Wrapping<F> operations of ANY length, the modelled run '
+             'equals the documented run (exact result reduced mod 2^n at each step, shift amounts reduced mod the width, panic only for a zero divisor) and is identical '
+             'under both build profiles; built on the C01/C02/C06/C07 theorems. Correspondence: programs of 1..12 steps over every impl variant (by value / by reference / '
+             'assigning, 12 shift-amount types, integer right-hand sides, sum/product) in both profiles. from_num(float)/parsing forwarders are covered by C05/C08 models, not here.',
+        design_ref='7/C18', note=COMMON_NOTE, technique='Lean 4 proof (induction over programs) over executable model + differential correspondence'),
+    'C04': dict(
+        text='Theorem SfxProps.C04.holds (full strength): for EVERY ordered pair of valid layouts (integers = zero-fraction layouts) and every source value the '
+             'overflowing/checked/wrapping/saturating/plain conversion forms equal the documented functions of the exact result floor(x*2^fd/2^fs); From is '
+             'value-preserving and cannot overflow under its type-level bound, LossyFrom loses only fractional bits, and the bound is tight (bound_tight). Built on a '
+             'proved specification of to_fixed_helper (neg/dir/bits/overflow, all shift amounts incl. >= 128). Correspondence: helper hook on all primitives, typed '
+             'conversions for every family pair x {0, mid, n}^2 fractional bits and all 12 integer types + bool, both profiles. The From/LossyFrom admissibility table of '
+             'convert.rs is not yet regenerated by the translator (the predicate is stated in Lean by hand).',
+        design_ref='7/C04', note=COMMON_NOTE, technique='Lean 4 proof over executable model + differential correspondence'),
+    'C05': dict(
+        text='Theorem SfxProps.C05.holds (full strength, f32 and f64, all 507 layouts): float->fixed gives the grid value nearest to the exact float value (ties to even) under '
+             'the four policies with overflow decided on the rounded value; NaN/infinity are rejected as documented; fixed->float equals the textbook IEEE-754 '
+             'round-to-nearest-even (subnormals, overflow to infinity) and that textbook definition is itself proved nearest/ties-to-even. Four defects found by this check '
+             'were repaired in /repo (top binade/NaN classification, subnormal scale, -0.0). Correspondence: both helper hooks on all layouts + the public API, both profiles.',
+        design_ref='7/C05', note=COMMON_NOTE, technique='Lean 4 proof over executable model + differential correspondence'),
+    'C17': dict(
+        text='Theorem SfxProps.C17.holds: for ALL layouts and operands the iteration count recorded by the model of sqrt/log2/ln/exp/pow/sin/cos/tan is at most 4*width+64 '
+             '(sharper per-function bounds in `sharp`). The model gives the two data-dependent loops fuel (halving: width+1; range reduction: 2 after the repaired remainder step) and '
+             'turns fuel exhaustion into a panic; that this panic is unreachable is part of C12 and is exercised by the correspondence, which compares the hook counter of the real '
+             '(fuel-less) loops with the model count on every request incl. MIN/MAX/1ulp. The unbounded range-reduction loops were repaired in /repo (fix c0749e7).',
+        design_ref='7/C17', note=COMMON_NOTE + ' Hook: thread-local counter incremented in each loop body of transcendental.rs under the guard.',
+        technique='Lean 4 proof (structural tick bounds) over executable model + hook-counter correspondence'),
+    'C03': dict(
+        text='Theorems SfxProps.C03.fixed_holds / float_holds (full strength): for EVERY ordered pair of valid layouts (integers = zero-fraction layouts, both operand orders) '
+             'partial_cmp and the six operators equal the comparison of the exact values; for f32/f64 finite floats compare by exact value in both operand orders, NaN is unordered '
+             'and unequal, infinities lie outside; same-type Ord/Eq (and Hash, derived from the bits) coincide with the value order. Four defects found by this check were repaired '
+             'in /repo (sign of converted bits, top binade/NaN, subnormal scale, -0.0). Correspondence: typed operators for every family pair x {0,mid,n}^2, 12 integer types, f32/f64.',
+        design_ref='7/C03', note=COMMON_NOTE + ' Hash equality is checked through DefaultHasher in the harness only.', technique='Lean 4 proof over executable model + differential correspondence'),
+    'C13': dict(
+        text='Theorem SfxProps.C13.holds (full strength over the model): for every supported source/destination pair (same type or a widening admitted by From; >= 4 fractional '
+             'bits and three magnitude bits above the point, which covers every type of the quantifier) and EVERY operand: no panic and no debug-only check; Err only for negative operands or '
+             'operands in (0,1) whose reciprocal is not representable; otherwise 0 <= r and (r-4)^2 <= X <= (r+4)^2 (exact integer bracket = 4 ulp), exact at 0 and 1; on the direct path the '
+             'result is within ONE ulp. Proof: the loop is the integer Newton iteration; halving phase + quadratic phase convergence within int_bits/2+8 steps (the code runs >= int_bits/2+10 '
+             'after fix d5514a8, which this check motivated). Correspondence + exact bracket verdict in the driver + mpmath search oracle.',
+        design_ref='7/C13', note=COMMON_NOTE + ' mpmath is used only to search for failing inputs.', technique='Lean 4 proof (integer Newton convergence) over executable model + differential correspondence'),
+    'C11': dict(
+        text='Every model function returns ONE Outcome (release value + "a debug-only check fires" flag); theorem profiles_agree: whenever the checking build returns it returns the '
+             'release value, for every modelled call; theorem no_debug_only_panic_holds / more_families: the checked/saturating/wrapping/overflowing forms of arithmetic, rounding, remainders, '
+             'Euclidean division, float conversions and Wrapping programs never set the flag (corollaries of C02 C05 C06 C07 C18; sqrt: C13). The tie to the code is the point of this check: the '
+             'union corpus of the other properties (1.2 M requests in quick) is executed by the harness built WITH and WITHOUT debug assertions/overflow checks and both are compared with the '
+             'model projections. Parsing/formatting requests join the corpus once their models are merged. Defects D4, D5, D8 (profile-dependent) were found this way and repaired.',
+        design_ref='7/C11', note=COMMON_NOTE + ' Both profiles use opt-level 1; code generation differences beyond the two flags are outside the model.',
+        technique='Lean 4 proof (Outcome discipline) + two-profile differential correspondence'),
+    'C12': dict(
+        text='FULL. Theorems SfxProps.C12.result_functions_hold (sqrt, log2, ln, exp, pow, powi: for every operand of every supported signed type and EVERY integer exponent no panic and no '
+             'debug-only check), sin_cos_total (sin for every angle, cos for |x| <= 200 — stronger than asked), log_err_only_when_undefined, log2_iterations, and '
+             'SfxProps.C12.tan_total_holds (SfxProps/C12Tan.lean): tan returns Ok without panic or debug-only check for every |x| <= 100 with |Real.tan x| <= 64 — the non-zero denominator '
+             'and representable quotient follow from the proved sin/cos accuracy (C16). tan_partial/tan_panic_example show the condition is sharp (an I9F23 angle 6e-6 below pi/2 panics). '
+             'Correspondence in both profiles incl. i32::MIN exponents; panics observed only outside the property\'s domain.',
+        design_ref='7/C12', note=COMMON_NOTE, technique='Lean 4 proof (value invariants through the loops; real analysis for tan) over executable model + two-profile correspondence'),
+    'C13': dict(
+        text='Theorem SfxProps.C13.holds (full strength over the model): for every supported source/destination pair (same type or a widening admitted by From; >= 4 fractional '
+             'bits and three magnitude bits above the point, which covers every type of the quantifier) and EVERY operand: no panic and no debug-only check; Err only for negative operands or '
+             'operands in (0,1) whose reciprocal is not representable; otherwise 0 <= r and (r-4)^2 <= X <= (r+4)^2 (exact integer bracket = 4 ulp), exact at 0 and 1; on the direct path the '
+             'result is within ONE ulp. Proof: the loop is the integer Newton iteration; halving phase + quadratic phase convergence within int_bits/2+8 steps (the code runs >= int_bits/2+10 '
+             'after fix d5514a8, which this check motivated). Correspondence + exact bracket verdict in the driver + mpmath search oracle.',
+        design_ref='7/C13', note=COMMON_NOTE + ' mpmath is used only to search for failing inputs.', technique='Lean 4 proof (integer Newton convergence) over executable model + differential correspondence'),
+    'C11': dict(
+        text='Every model function returns ONE Outcome (release value + "a debug-only check fires" flag); theorem profiles_agree: whenever the checking build returns it returns the '
+             'release value, for every modelled call; theorem no_debug_only_panic_holds / more_families: the checked/saturating/wrapping/overflowing forms of arithmetic, rounding, remainders, '
+             'Euclidean division, float conversions and Wrapping programs never set the flag (corollaries of C02 C05 C06 C07 C18; sqrt: C13). The tie to the code is the point of this check: the '
+             'union corpus of the other properties (1.2 M requests in quick) is executed by the harness built WITH and WITHOUT debug assertions/overflow checks and both are compared with the '
+             'model projections. Parsing/formatting requests join the corpus once their models are merged. Defects D4, D5, D8 (profile-dependent) were found this way and repaired.',
+        design_ref='7/C11', note=COMMON_NOTE + ' Both profiles use opt-level 1; code generation differences beyond the two flags are outside the model.',
+        technique='Lean 4 proof (Outcome discipline) + two-profile differential correspondence'),
+    'C12': dict(
+        text='Theorems SfxProps.C12.result_functions_hold (sqrt, log2, ln, exp, pow, powi: for every operand of every supported signed type and EVERY integer exponent no panic and no '
+             'debug-only check — full), sin_cos_total (sin for every angle, cos for |x| <= 200 — full, stronger than asked), log_err_only_when_undefined, log2_iterations. '
+             'tan: PARTIAL (tan_partial): the two inner calls are total and tan panics/flags exactly when the computed denominator is zero / the quotient does not fit; that this cannot '
+             'happen where |tan x| <= 64 needs the unproved accuracy of cos (C16). Correspondence in both profiles incl. i32::MIN exponents; panics observed only outside the property\'s domain.',
+        design_ref='7/C12', note=COMMON_NOTE, technique='Lean 4 proof (value invariants through the loops) over executable model + two-profile correspondence'),
+    'C14': dict(
+        text='FULL. Theorem SfxProps.C14.holds proves C14_statement over Mathlib\'s reals (Real.logb 2, Real.log) for every source layout S and supported destination D with D: From<S> '
+             '(S = D included) and every operand: |r - log2 x| <= 8 ulp (the proof gives 4.5), |r - ln x| <= 2^-23 |ln x| + 8 ulp (the proof gives 4.2; the relative term is the truncated '
+             'LOG2_E constant, bounded with Real.log_two_gt_d9/lt_d9), the sign claims, exactness on every power of two, the exact Err condition, no panic. '
+             'The mpmath oracle still judges the implementation\'s answers on every run (worst observed 0.43 of the bound) as the search for failing inputs when the correspondence breaks.',
+        design_ref='7/C14', note=COMMON_NOTE, technique='Lean 4 proof (integer trace + potential-function argument over the reals) + differential correspondence + mpmath search oracle'),
+    'C15': dict(
+        text='PARTIAL + KNOWN FINDING. Full statement C15_statement in SfxProps/C15.lean; theorem C15_partial proves the whole powi clause (exact rational error bound (n-1) ulp * max(1,|x|)^(n-1) '
+             'for n >= 2, truncated reciprocal for n < 0), the conventions 0^y, x^0, x^1 of pow and powi, totality (C12). NOT proved: error bounds of exp and pow. exp violates the property '
+             'for large operands (truncated series, no argument reduction): recorded as known finding D10 (ids D10-exp, D10-pow) with a predicate on (layout, operand); any oracle-judged failure '
+             'outside that region is reported as a violation.',
+        design_ref='7/C15', note=COMMON_NOTE + ' exp/pow accuracy outside the finding region rests on sampled oracle judgements only.', technique='Lean 4 proof (partial) + differential correspondence + mpmath search oracle + known-findings file'),
+    'C16': dict(
+        text='sin/cos FULL, tan PARTIAL. SfxProps.C16.sin_cos_holds (SfxProps/C16Acc.lean) proves over Mathlib\'s reals, for every supported type and every angle |x| <= 200: '
+             '|sin_impl - Real.sin x| <= 2^-16, same for cos, results within [-1-2^-16, 1+2^-16] (proved budget 104.65/105.29 of the 128 units of 2^-23: range reduction 17.3, mirror 1.3, '
+             'CORDIC 86.1). Ingredients proved, none assumed: each of the 24 arctan table entries (regenerated from the source) within 2^-53 of Real.arctan 2^-i, pi enclosures for the 23-bit '
+             'constants, the rotation invariant with truncation, exact range reduction. tan: tan_holds_8 proves the clause for |tan x| <= 8; C16_statement_partial is the whole statement with '
+             'that one weakening; for 8 < |tan x| <= 64 worst-case bounds on the inner calls do not suffice (open), that region is judged by the mpmath search oracle on every run '
+             '(worst observed 2^-15.1 of the allowed 2^-14). table_facts/C16_partial (exact integer facts) are kept.',
+        design_ref='7/C16', note=COMMON_NOTE + ' The tan bound for 8 < |tan x| <= 64 rests on sampled oracle judgements only.',
+        technique='Lean 4 proof (integer CORDIC trace + real analysis) + differential correspondence + mpmath search oracle'),
+    'C17': dict(
+        text='Theorem SfxProps.C17.holds: for ALL layouts and operands the iteration count recorded by the model of sqrt/log2/ln/exp/pow/sin/cos/tan is at most 4*width+64 '
+             '(sharper per-function bounds in `sharp`). The model gives the two data-dependent loops fuel (halving: width+1; range reduction: 2 after the repaired remainder step) and '
+             'turns fuel exhaustion into a panic; that this panic is unreachable is part of C12 and is exercised by the correspondence, which compares the hook counter of the real '
+             '(fuel-less) loops with the model count on every request incl. MIN/MAX/1ulp. The unbounded range-reduction loops were repaired in /repo (fix c0749e7).',
+        design_ref='7/C17', note=COMMON_NOTE + ' Hook: thread-local counter incremented in each loop body of transcendental.rs under the guard.',
+        technique='Lean 4 proof (structural tick bounds) over executable model + hook-counter correspondence'),
+    'C03': dict(
+        text='Theorems SfxProps.C03.fixed_holds / float_holds (full strength): for EVERY ordered pair of valid layouts (integers = zero-fraction layouts, both operand orders) '
+             'partial_cmp and the six operators equal the comparison of the exact values; for f32/f64 finite floats compare by exact value in both operand orders, NaN is unordered '
+             'and unequal, infinities lie outside; same-type Ord/Eq (and Hash, derived from the bits) coincide with the value order. Four defects found by this check were repaired '
+             'in /repo (sign of converted bits, top binade/NaN, subnormal scale, -0.0). Correspondence: typed operators for every family pair x {0,mid,n}^2, 12 integer types, f32/f64.',
+        design_ref='7/C03', note=COMMON_NOTE + ' Hash equality is checked through DefaultHasher in the harness only.', technique='Lean 4 proof over executable model + differential correspondence'),
+    'C13': dict(
+        text='Theorem SfxProps.C13.holds (full strength over the model): for every supported source/destination pair (same type or a widening admitted by From; >= 4 fractional '
+             'bits and three magnitude bits above the point, which covers every type of the quantifier) and EVERY operand: no panic and no debug-only check; Err only for negative operands or '
+             'operands in (0,1) whose reciprocal is not representable; otherwise 0 <= r and (r-4)^2 <= X <= (r+4)^2 (exact integer bracket = 4 ulp), exact at 0 and 1; on the direct path the '
+             'result is within ONE ulp. Proof: the loop is the integer Newton iteration; halving phase + quadratic phase convergence within int_bits/2+8 steps (the code runs >= int_bits/2+10 '
+             'after fix d5514a8, which this check motivated). Correspondence + exact bracket verdict in the driver + mpmath search oracle.',
+        design_ref='7/C13', note=COMMON_NOTE + ' mpmath is used only to search for failing inputs.', technique='Lean 4 proof (integer Newton convergence) over executable model + differential correspondence'),
+    'C11': dict(
+        text='Every model function returns ONE Outcome (release value + "a debug-only check fires" flag); theorem profiles_agree: whenever the checking build returns it returns the '
+             'release value, for every modelled call; theorem no_debug_only_panic_holds / more_families: the checked/saturating/wrapping/overflowing forms of arithmetic, rounding, remainders, '
+             'Euclidean division, float conversions and Wrapping programs never set the flag (corollaries of C02 C05 C06 C07 C18; sqrt: C13). The tie to the code is the point of this check: the '
+             'union corpus of the other properties (1.2 M requests in quick) is executed by the harness built WITH and WITHOUT debug assertions/overflow checks and both are compared with the '
+             'model projections. Parsing/formatting requests join the corpus once their models are merged. Defects D4, D5, D8 (profile-dependent) were found this way and repaired.',
+        design_ref='7/C11', note=COMMON_NOTE + ' Both profiles use opt-level 1; code generation differences beyond the two flags are outside the model.',
+        technique='Lean 4 proof (Outcome discipline) + two-profile differential correspondence'),
+    'C12': dict(
+        text='FULL. Theorems SfxProps.C12.result_functions_hold (sqrt, log2, ln, exp, pow, powi: for every operand of every supported signed type and EVERY integer exponent no panic and no '
+             'debug-only check), sin_cos_total (sin for every angle, cos for |x| <= 200 — stronger than asked), log_err_only_when_undefined, log2_iterations, and '
+             'SfxProps.C12.tan_total_holds (SfxProps/C12Tan.lean): tan returns Ok without panic or debug-only check for every |x| <= 100 with |Real.tan x| <= 64 — the non-zero denominator '
+             'and representable quotient follow from the proved sin/cos accuracy (C16). tan_partial/tan_panic_example show the condition is sharp (an I9F23 angle 6e-6 below pi/2 panics). '
+             'Correspondence in both profiles incl. i32::MIN exponents; panics observed only outside the property\'s domain.',
+        design_ref='7/C12', note=COMMON_NOTE, technique='Lean 4 proof (value invariants through the loops; real analysis for tan) over executable model + two-profile correspondence'),
+    'C13': dict(
+        text='Theorem SfxProps.C13.holds (full strength over the model): for every supported source/destination pair (same type or a widening admitted by From; >= 4 fractional '
+             'bits and three magnitude bits above the point, which covers every type of the quantifier) and EVERY operand: no panic and no debug-only check; Err only for negative operands or '
+             'operands in (0,1) whose reciprocal is not representable; otherwise 0 <= r and (r-4)^2 <= X <= (r+4)^2 (exact integer bracket = 4 ulp), exact at 0 and 1; on the direct path the '
+             'result is within ONE ulp. Proof: the loop is the integer Newton iteration; halving phase + quadratic phase convergence within int_bits/2+8 steps (the code runs >= int_bits/2+10 '
+             'after fix d5514a8, which this check motivated). Correspondence + exact bracket verdict in the driver + mpmath search oracle.',
+        design_ref='7/C13', note=COMMON_NOTE + ' mpmath is used only to search for failing inputs.', technique='Lean 4 proof (integer Newton convergence) over executable model + differential correspondence'),
+    'C11': dict(
+        text='Every model function returns ONE Outcome (release value + "a debug-only check fires" flag); theorem profiles_agree: whenever the checking build returns it returns the '
+             'release value, for every modelled call; theorem no_debug_only_panic_holds / more_families: the checked/saturating/wrapping/overflowing forms of arithmetic, rounding, remainders, '
+             'Euclidean division, float conversions and Wrapping programs never set the flag (corollaries of C02 C05 C06 C07 C18; sqrt: C13). The tie to the code is the point of this check: the '
+             'union corpus of the other properties (1.2 M requests in quick) is executed by the harness built WITH and WITHOUT debug assertions/overflow checks and both are compared with the '
+             'model projections. Parsing/formatting requests join the corpus once their models are merged. Defects D4, D5, D8 (profile-dependent) were found this way and repaired.',
+        design_ref='7/C11', note=COMMON_NOTE + ' Both profiles use opt-level 1; code generation differences beyond the two flags are outside the model.',
+        technique='Lean 4 proof (Outcome discipline) + two-profile differential correspondence'),
+    'C12': dict(
+        text='Theorems SfxProps.C12.result_functions_hold (sqrt, log2, ln, exp, pow, powi: for every operand of every supported signed type and EVERY integer exponent no panic and no '
+             'debug-only check — full), sin_cos_total (sin for every angle, cos for |x| <= 200 — full, stronger than asked), log_err_only_when_undefined, log2_iterations. '
+             'tan: PARTIAL (tan_partial): the two inner calls are total and tan panics/flags exactly when the computed denominator is zero / the quotient does not fit; that this cannot '
+             'happen where |tan x| <= 64 needs the unproved accuracy of cos (C16). Correspondence in both profiles incl. i32::MIN exponents; panics observed only outside the property\'s domain.',
+        design_ref='7/C12', note=COMMON_NOTE, technique='Lean 4 proof (value invariants through the loops) over executable model + two-profile correspondence'),
+    'C14': dict(
+        text='FULL. Theorem SfxProps.C14.holds proves C14_statement over Mathlib\'s reals (Real.logb 2, Real.log) for every source layout S and supported destination D with D: From<S> '
+             '(S = D included) and every operand: |r - log2 x| <= 8 ulp (the proof gives 4.5), |r - ln x| <= 2^-23 |ln x| + 8 ulp (the proof gives 4.2; the relative term is the truncated '
+             'LOG2_E constant, bounded with Real.log_two_gt_d9/lt_d9), the sign claims, exactness on every power of two, the exact Err condition, no panic. '
+             'The mpmath oracle still judges the implementation\'s answers on every run (worst observed 0.43 of the bound) as the search for failing inputs when the correspondence breaks.',
+        design_ref='7/C14', note=COMMON_NOTE, technique='Lean 4 proof (integer trace + potential-function argument over the reals) + differential correspondence + mpmath search oracle'),
+    'C15': dict(
+        text='PARTIAL + KNOWN FINDING. Full statement C15_statement in SfxProps/C15.lean; theorem C15_partial proves the whole powi clause (exact rational error bound (n-1) ulp * max(1,|x|)^(n-1) '
+             'for n >= 2, truncated reciprocal for n < 0), the conventions 0^y, x^0, x^1 of pow and powi, totality (C12). NOT proved: error bounds of exp and pow. exp violates the property '
+             'for large operands (truncated series, no argument reduction): recorded as known finding D10 (ids D10-exp, D10-pow) with a predicate on (layout, operand); any oracle-judged failure '
+             'outside that region is reported as a violation.',
+        design_ref='7/C15', note=COMMON_NOTE + ' exp/pow accuracy outside the finding region rests on sampled oracle judgements only.', technique='Lean 4 proof (partial) + differential correspondence + mpmath search oracle + known-findings file'),
+    'C16': dict(
+        text='PARTIAL. Full statement C16_statement in SfxProps/C16.lean; proved: C16_partial (exact range reduction modulo the 23-bit 2pi constant into [-pi,pi] and mirror into [-pi/2,pi/2] for '
+             'EVERY angle; the model CORDIC equals the plain-integer iteration, profile-independent, bounded by 3) and table_facts over the regenerated constants (24 arctan entries within 2^-54-i '
+             'of Gregory series, convergence condition, coverage of pi/2, entry 0 = truncated consts::PI, gain^2 * prod(1+4^-i) in [1, 1+2^-31)). NOT proved: the real-analysis step to the 2^-16 / '
+             '2^-14 bounds; judged on every run by the mpmath search oracle (worst observed 0.22 of the bound).',
+        design_ref='7/C16', note=COMMON_NOTE + ' The numeric error bounds rest on sampled oracle judgements only.', technique='Lean 4 proof (partial) + translator-checked tables + differential correspondence + mpmath search oracle'),
+    'C08': dict(
+        text='FULL. Theorems SfxProps.C08.holds (= C08_statement: for every byte string, radix 2/8/10/16 and valid layout the model of from_str_{i,u}N returns, without panic or debug-only check, '
+             'the half-even rounding E of the literal\'s exact rational value modulo 2^n with the flag "E out of range", or a non-overflow error for a malformed string) and forms_hold (the four public '
+             'forms FromStr.parse: plain = E or the overflow error exactly when E is out of range, saturating = E clamped to the bound on the literal\'s side, wrapping/overflowing = E mod 2^n [+ flag]). '
+             'Proof covers the tokeniser, integer folds with the half-width delegation chain, binary/octal/hex fractions, the decimal fast path dec_to_bin (four widening widths and the two-limb u128 '
+             'version over the proved wide division) and the slow-path boundary loop. Tie: the 580-line function-by-function model agrees with the code on every request (hook on all 507 layouts x 4 radices '
+             '+ 16 public entry points, grammar-/tie-directed literals up to 200 digits, malformed and non-UTF-8 input, both profiles); every implementation answer is also judged against the exact '
+             'specification. Two defects found this way were repaired (292489c, 8a5b41d).',
+        design_ref='7/C08', note=COMMON_NOTE, technique='Lean 4 proof (model = exact rational specification) + differential correspondence'),
+    'C09': dict(
         text='PARTIAL (theorems in progress). The function-by-function model of display.rs agrees with the code on every request (hook fmt_dec/fmt_radix2 on all 507 layouts, 2112 literal format-spec combinations, '
              'precision 0..200, width 0..140, both profiles); every implementation answer is judged by an exact-rational verdict (digits shown = half-even rounding at the requested/shown precision, radix 2^k exact, '
              'length = max(width, core), padding consists of fill/zeros only) and the default output of every 8-bit value and of sampled wider values is parsed back by the implementation. Theorems over the model '
